@@ -295,7 +295,6 @@ where
 
     async fn load_in_memory(&mut self, findex: FileIndex, blob_size: u64) -> Result<()> {
         let (record_headers, records_count) = findex.get_records_headers(blob_size).await?;
-        self.inner = State::InMemory(SRwLock::new(InMemoryData::new(record_headers, records_count)));
         let meta_buf = findex.read_meta().await.map_err(|err| err.into_bincode_if_unexpected_eof())?;
         let (bloom_filter, range_filter, _) = Self::deserialize_filters(&meta_buf)?;
         let bloom_filter = if self.params.bloom_is_on {
@@ -303,6 +302,9 @@ where
         } else {
             None
         };
+        // Nothing is awaited from here on: the index moves to memory together with its filters.
+        // A future dropped above leaves the index on disk; a switch before the reads left it in memory with an off-loaded filter
+        self.inner = State::InMemory(SRwLock::new(InMemoryData::new(record_headers, records_count)));
         self.filter = CombinedFilter::new(bloom_filter, range_filter);
         self.bloom_offset = None;
         Ok(())
